@@ -95,7 +95,7 @@ def run(rep: Report, prog: Program, tier: str) -> None:
                                 f"extensions [{desc}] are written with profile {profile:#06x} as {value.hex()} and read back as {back}", construct=f"ext [{desc}]"))
     # per-extension widths through HeaderExtensionsMap.set/get
     hem = prog.cls("rtp.HeaderExtensionsMap")
-    fields = {"abs_send_time": [0, 1, 0xFFFFFF], "transmission_offset": [0, 5, -5, (1 << 23) - 1, -(1 << 23)], "audio_level": [(False, 0), (True, 127)],
+    fields = {"abs_send_time": [0, 1, 0xFFFFFF], "transmission_offset": [0, 5, -5, (1 << 23) - 1, -(1 << 23)], "audio_level": [(False, 0), (True, 127), (True, 0), (False, 127), (True, 1)],
               "transport_sequence_number": [0, 65535], "mid": ["0", "audio-mid"], "rtp_stream_id": ["hi"], "repaired_rtp_stream_id": ["lo"]}
     set_f, get_f = prog.func("rtp.HeaderExtensionsMap.set"), prog.func("rtp.HeaderExtensionsMap.get")
     for ext_id in (3, 20):
